@@ -139,6 +139,12 @@ mod imp {
             SumForm { name: "Sum<&Element>", f: |l| l.iter().sum() },
             SumForm { name: "Sum<AffinePoint>", f: |l| l.iter().map(af).sum() },
             SumForm { name: "Sum<&AffinePoint>", f: |l| { let a: Vec<Af> = l.iter().map(af).collect(); a.iter().sum() } },
+            // iterators whose size_hint lower bound is 0 although they yield items
+            SumForm { name: "Sum<Element> over filter()", f: |l| l.iter().copied().filter(|_| true).sum() },
+            SumForm { name: "Sum<&Element> over filter()", f: |l| l.iter().filter(|_| true).sum() },
+            SumForm { name: "Sum<AffinePoint> over flat_map()", f: |l| l.iter().flat_map(|e| Some(af(e))).sum() },
+            SumForm { name: "Sum<Element> over chain(skip_while)", f: |l| l.iter().copied().skip_while(|_| false).chain(std::iter::empty()).sum() },
+            SumForm { name: "Sum<Element> over from_fn", f: |l| { let mut i = 0; std::iter::from_fn(|| { let r = l.get(i).copied(); i += 1; r }).sum() } },
         ]
     }
 
